@@ -66,7 +66,9 @@ TUS = {
     # scalar Denominator<T> uses nothing of the vector headers: its configuration classes are those of the scalar headers alone
     "t_denom": {"sources": ["t_denom.cpp"], "parts": INT_PARTS, "family": "scalar"},
     "t_denomv": {"sources": ["t_denom.cpp"], "parts": INT_PARTS, "flags": ["-DVX_DENOM_VECTOR=1"]},
-    "t_scalar": {"sources": ["t_scalar.cpp"], "parts": INT_PARTS + FLT_PARTS, "cfg_flags": exh16_flags, "shards": {"thorough": {"16": 6, "32": 8, "f32": 4}}},
+    # C16 is differential (vector lane against AVEL's own scalar overload); the values themselves get their 2^32 passes in C01..C13, so this harness runs the
+    # lattice domains in both tiers (with the 2^32 passes its thorough tier skipped two thirds of its jobs at the deadline)
+    "t_scalar": {"sources": ["t_scalar.cpp"], "parts": INT_PARTS + FLT_PARTS, "shards": {"thorough": {"16": 2, "32": 2}}},
     "t_convert": {"sources": ["t_convert.cpp"], "parts": INT_PARTS + FLT_PARTS, "cfg_flags": convert_pairs_flags},
     "t_alloc": {"sources": ["t_alloc.cpp"], "c_sources": ["vx_malloc.c"], "parts": [None],
                 "flags": ["-fno-builtin-malloc", "-fno-builtin-free", "-fno-builtin-calloc", "-fno-builtin-realloc", "-fno-builtin-aligned_alloc", "-fno-builtin-posix_memalign", "-fno-builtin-memalign"]},
@@ -309,7 +311,7 @@ PROPS = {
         "configs": scalar_cfgs,
         "rule": "for every vector type and every operation that has a scalar overload for exactly its element type (bit functions, rotations, min/max/minmax/clamp, abs/neg_abs/negate, "
                 "average/midpoint, keep/clear/blend/set_bits, the float function family): every lane of the vector result against the scalar overload applied to that lane's inputs, over "
-                "D8, D16, D32 (thorough; L32 quick), L64, F32L u F32H, F64S for unary and D8^2, D16xL16 (all pairs thorough), L^2, F32L^2, F64L^2 for binary operations, triples for the "
+                "D8, D16, L32, L64, F32L u F32H, F64S for unary and D8^2, D16xL16, L^2, F32L^2, F64L^2 for binary operations (the 2^32 passes over these values belong to C01..C13), rotations by one amount for the whole vector and per lane, triples for the "
                 "mask-driven ones; the mixed-signedness cmp_* functions against comparison in __int128. Configurations: the scalar feature sets {none, X86, POPCNT, LZCNT, BMI, BMI2, all} "
                 "and the vector arm cover. Inputs outside an operation's domain (clamp with lo >= hi, NaN for min/max) are not compared.",
         "explanation": "differential exploration: the reference for a lane is AVEL's own scalar overload (selected without implicit promotion), so no expected values are written by hand; "
